@@ -120,7 +120,7 @@ def build_py(run, prop=ID):
             return E.call(r, [ctx["self"], SInt(fn)])
         spec_mai = S.mai(hsn, maio, N, nb, fn) if not cyc else (fn + maio) % N
         for p, ctx, out in run_paths(E, setup, inv):
-            tag = {"side": "py", "what": "resolve", "nb": nb}
+            tag = {"side": "py", "what": "resolve", "nb": nb, "N": N}
             run_.add(*path_obligations(None, prop, r, p, cs))
             if out[0] == "raise":
                 run_.add(Obligation(prop, qualname(r), "no_exception", p.pc, z3.BoolVal(False), kind="noexc",
@@ -149,7 +149,7 @@ def build_py(run, prop=ID):
 def witness_py(o, model):
     t = dict(o.tag or {})
     if t.get("what") == "resolve":
-        t.update(hsn=mval(model, z3.Int("hsn")), maio=mval(model, z3.Int("maio")), n=mval(model, z3.Int("N")), fn=mval(model, z3.Int("fn")))
+        t.update(hsn=mval(model, z3.Int("hsn")), maio=mval(model, z3.Int("maio")), n=t.get("N") or mval(model, z3.Int("N")), fn=mval(model, z3.Int("fn")))
     elif t.get("what") == "init":
         t.update(n=mval(model, z3.Int("N")), hsn=mval(model, z3.Int("hsn")), maio=mval(model, z3.Int("maio")))
     elif t.get("what") == "fn2gsm_time":
